@@ -648,7 +648,17 @@ func TestTable(t *testing.T) {
 	scopes := []func(p *ir.Policy){func(p *ir.Policy) {}, func(p *ir.Policy) { p.Principal = ir.ScopeIn(ir.Ent("T1", "g")) }, func(p *ir.Policy) {
 		p.Principal = ir.ScopeIsIn("T0", ir.Ent("T1", "g"))
 		p.Resource = ir.ScopeEq(ir.Ent("T1", "r"))
-	}, func(p *ir.Policy) { p.Resource = ir.ScopeIs("T0") }}
+	}, func(p *ir.Policy) { p.Resource = ir.ScopeIs("T0") },
+		// scope targets that are reached through two parent links, the last one to an entity that has no entry of its own
+		func(p *ir.Policy) { p.Principal = ir.ScopeIn(ir.Ent("T1", "top")) },
+		func(p *ir.Policy) { p.Principal = ir.ScopeIsIn("T0", ir.Ent("T1", "top")) },
+		func(p *ir.Policy) {
+			p.Action = ir.ScopeInSet([]ir.Value{ir.Ent("Action", "zz"), ir.Ent("Action", "all")})
+			p.Resource = ir.ScopeIn(ir.Ent("T1", "r"))
+		},
+		func(p *ir.Policy) { p.Action = ir.ScopeIn(ir.Ent("Action", "all")) }}
+	store = append(store, ir.Entity{UID: ir.Ent("Action", "view"), Parents: []ir.Value{ir.Ent("Action", "readers")}}, ir.Entity{UID: ir.Ent("Action", "readers"), Parents: []ir.Value{ir.Ent("Action", "all")}})
+	store[1].Parents = []ir.Value{ir.Ent("T1", "top")}
 	pc := []ir.Value{ir.Ent("T0", "a"), ir.Ent("T1", "g"), ir.Ent("T0", "zz")}
 	rc := []ir.Value{ir.Ent("T1", "r"), ir.Ent("T0", "a")}
 	ac := []ir.Value{ir.Long(1), ir.Long(2), ir.Str("s")}
